@@ -17,6 +17,13 @@ mod c05;
 mod prog;
 mod c03;
 mod c17;
+mod c08;
+mod c15;
+mod schema;
+mod c16;
+mod c04;
+mod c04t;
+mod typed;
 mod c07;
 
 fn main() {
@@ -30,7 +37,8 @@ fn main() {
     let mut sink = common::Sink::new();
     match prop {
         "C18" => c18::run(&mut sink, thorough, seed),
-        "C01" | "C02" | "C09" | "C11" | "C14" => c01::run(&mut sink, prop, thorough, seed),
+        "C01" | "C02" | "C11" | "C14" => c01::run(&mut sink, prop, thorough, seed),
+        "C09" => { c01::run(&mut sink, prop, thorough, seed); typed::run_tt3(&mut sink, thorough, seed); }
         "C20" => {
             // number-alphabet strings for Number::from_str + accessors, typed targets, whole documents, verbatim text
             c06::run(&mut sink, thorough, seed);
@@ -46,12 +54,16 @@ fn main() {
             c19::run(&mut sink, thorough, seed);
         }
         "C06" => c06::run(&mut sink, thorough, seed),
-        "C10" => c10::run(&mut sink, thorough, seed),
+        "C10" => { c10::run(&mut sink, thorough, seed); typed::run_pfxs(&mut sink, thorough, seed); }
         "C12" => c12::run(&mut sink, thorough, seed),
-        "C13" => c13::run(&mut sink, thorough, seed),
-        "C05" => c05::run(&mut sink, thorough, seed),
+        "C13" => { c13::run(&mut sink, thorough, seed); typed::run_rfaults(&mut sink, thorough, seed); }
+        "C05" => { c05::run(&mut sink, thorough, seed); c01::run(&mut sink, prop, thorough, seed); }
         "C03" => c03::run(&mut sink, thorough, seed),
         "C17" => c17::run(&mut sink, thorough, seed),
+        "C08" => c08::run(&mut sink, thorough, seed),
+        "C15" => c15::run(&mut sink, thorough, seed),
+        "C16" => { c16::run(&mut sink, thorough, seed); typed::run_tt(&mut sink, thorough, seed); }
+        "C04" => c04::run(&mut sink, thorough, seed),
         "C07" => c07::run(&mut sink, thorough, seed),
         "replay" => { /* replay lines are `op args…` on stdin */
             let mut s = String::new();
@@ -73,6 +85,7 @@ fn main() {
 fn replay(sink: &mut common::Sink, toks: &[&str]) {
     match toks[0] {
         "ptr" | "ptrmut" | "pidx" => c18::replay(sink, toks),
+        "vget" | "vindex" | "vindexmut" | "vtake" | "peq" | "jsonm" | "jsonp" | "jsonmbuild" => c18::replay(sink, toks),
         "pv" | "pi" => c01::replay(sink, toks),
         "pfx" => c10::replay(sink, toks),
         "int" | "acc" | "iprint" => c06::replay(sink, toks),
@@ -85,6 +98,11 @@ fn replay(sink: &mut common::Sink, toks: &[&str]) {
         "esc" | "escbufs" | "hex4" | "hex4s" | "scan" => c05::replay(sink, toks),
         "serc" | "serp" | "serbufs" | "serbufx" | "disp" => c03::replay(sink, toks),
         "maphist" | "mapeqh" | "mapeq" | "maphash" | "mapsort" => c17::replay(sink, toks),
+        "f64lit" | "f32lit" => c08::replay(sink, toks),
+        "tov" | "tovagree" => c15::replay(sink, toks),
+        "c16" => c16::replay(sink, toks),
+        "rtv" | "rtt" => c04::replay(sink, toks),
+        "tt" | "tt3" | "pfxs" | "rfaults" => typed::replay(sink, toks),
         "f64rt" | "f32rt" | "f64pr" | "f32pr" | "f32all" => c07::replay(sink, toks),
         _ => eprintln!("cannot replay op {}", toks[0]),
     }
